@@ -691,6 +691,11 @@ PROPS["C03"]["rule"] += (" The answer to a get (c03get): 1-4 Channel::basic_get 
     "answered with Get-Empty or Get-Ok + header + body frames (bodies of 0 / 1 / 10 / 300 / 4088 / 5000 bytes in any "
     "partition, heartbeats in between, the byte stream in pieces), delivery tags up to 2^64-1, message counts up to "
     "2^32-1, four property sets: every call returns exactly what was sent in answer to it.")
+# a frame dropped at the high-water mark is a publish that does not reach the wire intact (seed C02g)
+PROPS["C02"]["check_mods"].append("C18loop")
+PROPS["C02"]["drivers"].append({"name": "c18loop", "n_quick": 60, "n_thorough": 2000, "timeout": 3000})
+PROPS["C02"]["rule"] += (" Under throttling (c18loop, see C18): the real run_io_loop with small water marks, publishers "
+    "ahead of the transport: every buffer accepted reaches the wire whole, once, in its channel's order.")
 # a silent server while the connection is closing (seed C05d): the heartbeat scenarios of the c05 generator
 PROPS["C17"]["check_mods"].append("C05")
 PROPS["C17"]["drivers"].append({"name": "c05core", "n_quick": 160, "n_thorough": 2000, "timeout": 3000})
